@@ -49,12 +49,13 @@ def from_Note(note, process_octaves=True, standalone=True):
     # Lower the case of the name
     result = note.name[0].lower()
 
-    # Convert #'s and b's to 'is' and 'es' suffixes
-    for accidental in note.name[1:]:
-        if accidental == "#":
-            result += "is"
-        elif accidental == "b":
-            result += "es"
+    # Convert the net alteration to 'is' or 'es' suffixes: sharps and flats in
+    # one name cancel, and LilyPond has no pitch name that mixes the two
+    alteration = note.name[1:].count("#") - note.name[1:].count("b")
+    if alteration > 0:
+        result += "is" * alteration
+    else:
+        result += "es" * -alteration
 
     # Place ' and , for octaves
     if process_octaves:
